@@ -169,7 +169,7 @@ for ch in ("A", "W"):
                level="B", bounds="components admitted: %s; <=%d segments, <=%d characters per component, symbolic mask (all 64), every allocation request may fail" % (nm, vm, vl),
                functions=[f % ch for f in NORM_FUNCS], inlined=[f % ch for f in NORM_FUNCS[2:]],
                stubs=["memory manager (ledger stub)", "memcpy (element loop)"], kf=NORM_KF,
-               timeout_s=by_tier(1500, 7200), mem_gb=by_tier(8, 24))
+               timeout_s=by_tier(1500, 7200), mem_gb=by_tier(14, 24))
 
 # ----------------------------------------------------------------------------------------------------------------
 # C10 (+C07,C12,C13,C14)  reference creation, whole operation with real callees inlined
@@ -482,7 +482,7 @@ QUICK = {
     "C05": [r"^ToString\.cap\."],
     "C06": [r"^AddBaseUri\.A"],
     "C07": [r"^RemoveBaseUri\.A", r"^MakeOwner\.A", r"^NormalizeSyntax\.borrowed\.(scheme-query-fragment|all-short|path)\.A", r"^PushPathSegment\.A"],
-    "C08": [r"^NormalizeSyntax\..*\.A", r"^NormalizeMaskRequired\..*\.A"],
+    "C08": [r"^NormalizeSyntax\.(borrowed|owned)\.(scheme-query-fragment|authority|path|all-short)\.A", r"^NormalizeMaskRequired\..*\.A"],
     "C09": [r"^NormalizeSyntax\.(borrowed|owned)\.(path|all-short)\.A", r"^NormalizeSyntax\.borrowed\.dots\.A"],
     "C10": [r"^RemoveBaseUri\."],
     "C11": [r"."],
